@@ -16,7 +16,7 @@ namespace awkward {
   void*
   ForthInputBuffer::read(int64_t num_bytes, util::ForthError& err) noexcept {
     int64_t next = pos_ + num_bytes;
-    if (next > length_) {
+    if (num_bytes < 0  ||  next > length_) {
       err = util::ForthError::read_beyond;
       return nullptr;
     }
